@@ -1295,18 +1295,23 @@ pub fn main(args: &Args) -> Report {
     rep.out = out;
     rep.out.count("cases_planned", n as u64);
     rep.out.count("cases_done", done as u64);
-    let t = args.thorough();
-    rep.floor("statements", rep.out.evaluations, if t { 250000 } else { 25_000 });
-    rep.floor("reads returning rows on both sides", rep.counter("reads_returning_rows_on_both_sides"), if t { 100000 } else { 10_000 });
-    rep.floor("statement-API reads compared", rep.counter("statement_api_reads_compared"), if t { 100000 } else { 10_000 });
-    rep.floor("writes succeeding on both sides", rep.counter("writes_succeeding_on_both_sides"), if t { 40000 } else { 4_000 });
-    rep.floor("writes offered to the read entry point", rep.counter("writes_offered_to_read_entry_point"), if t { 40000 } else { 4_000 });
-    rep.floor("nested writes offered to the read entry point", rep.counter("nested_writes_offered_to_read_entry_point"), if t { 5000 } else { 500 });
-    rep.floor("reads offered to the write entry point", rep.counter("reads_offered_to_write_entry_point"), if t { 40000 } else { 4_000 });
-    rep.floor("error categories compared", rep.counter("error_categories_compared"), if t { 80000 } else { 8_000 });
-    rep.floor("writes in explicit transactions", rep.counter("writes_in_explicit_transactions"), if t { 15000 } else { 1_500 });
+    // Floors are per completed case (the run is bounded by a wall-clock budget, and how many
+    // cases fit depends on the machine): a fifth of the planned cases must have run, and the
+    // completed ones must have produced what a case produces on average.
+    let done_cases = rep.counter("cases_done").max(1);
+    rep.floor("cases completed", done_cases, (n as u64) / 5);
+    let per = |x: u64| x * done_cases / 100;
+    rep.floor("statements", rep.out.evaluations, per(5_000));
+    rep.floor("reads returning rows on both sides", rep.counter("reads_returning_rows_on_both_sides"), per(2_000));
+    rep.floor("statement-API reads compared", rep.counter("statement_api_reads_compared"), per(2_000));
+    rep.floor("writes succeeding on both sides", rep.counter("writes_succeeding_on_both_sides"), per(800));
+    rep.floor("writes offered to the read entry point", rep.counter("writes_offered_to_read_entry_point"), per(700));
+    rep.floor("nested writes offered to the read entry point", rep.counter("nested_writes_offered_to_read_entry_point"), per(80));
+    rep.floor("reads offered to the write entry point", rep.counter("reads_offered_to_write_entry_point"), per(2_000));
+    rep.floor("error categories compared", rep.counter("error_categories_compared"), per(1_500));
+    rep.floor("writes in explicit transactions", rep.counter("writes_in_explicit_transactions"), per(250));
     for kind in ["node", "relationship", "path", "map", "list", "float", "int", "string", "bool", "null", "nan", "inf"] {
-        rep.floor(&format!("values of kind {kind} compared"), rep.counter(&format!("value_kind.{kind}")), if t { 2000 } else { 200 });
+        rep.floor(&format!("values of kind {kind} compared"), rep.counter(&format!("value_kind.{kind}")), per(30));
     }
     rep
 }
